@@ -367,9 +367,10 @@ inline void m05(const Edge& e, const Parsed& P) {
 		const bool up = e.op.k == OP_UPDATE;
 		const uint8_t pre = up ? M_PRE_UPDATE : M_PRE_REACT, mid = up ? M_UPDATE : M_REACT, post = up ? M_POST_UPDATE : M_POST_REACT;
 		uint8_t wantS[6], wantM[6]; int n = 0;
-		if (VX_HEAD) { wantS[n] = ROOT; wantM[n++] = pre; } wantS[n] = A; wantM[n++] = pre;
-		if (VX_HEAD) { wantS[n] = ROOT; wantM[n++] = mid; } wantS[n] = A; wantM[n++] = mid;
-		wantS[n] = A; wantM[n++] = post; if (VX_HEAD) { wantS[n] = ROOT; wantM[n++] = post; }
+		// (a state that does not define the callback itself contributes no delivery of its own; its injections are judged below)
+		if (VX_HEAD) { wantS[n] = ROOT; wantM[n++] = pre; } if (own_defined(A, pre)) { wantS[n] = A; wantM[n++] = pre; }
+		if (VX_HEAD) { wantS[n] = ROOT; wantM[n++] = mid; } if (own_defined(A, mid)) { wantS[n] = A; wantM[n++] = mid; }
+		if (own_defined(A, post)) { wantS[n] = A; wantM[n++] = post; } if (VX_HEAD) { wantS[n] = ROOT; wantM[n++] = post; }
 		if (P.nphase != n) flag(C05, "phase-count", e, "%d phase callbacks, expected %d", P.nphase, n);
 		for (int i = 0; i < P.nphase && i < n; ++i) {
 			const Ev& v = e.tr[P.phase_ev[i]];
@@ -396,8 +397,10 @@ inline void m05(const Edge& e, const Parsed& P) {
 		return;
 	}
 	if (e.op.k == OP_QUERY) {
-		const int n = VX_HEAD ? 2 : 1;
+		const int n = (VX_HEAD ? 1 : 0) + (own_defined(A, M_QUERY) ? 1 : 0);
 		if (P.nquery != n) flag(C05, "query-count", e, "%d query callbacks, expected %d", P.nquery, n);
+		// every member of a delivery group (the state, each of its injections) is asked once
+		{ unsigned seen[2] = {0, 0}; for (int i = 0; i < e.nev; ++i) { const Ev& v = e.tr[i]; if (v.kind != EV_CB || v.meth != M_QUERY) continue; unsigned& w = seen[v.sid == ROOT ? 0 : 1]; if (v.sid != ROOT && v.sid != A) continue; if (w & (1u << v.inj)) { flag(C05, "query-delivered-twice", e, "ev %d: query delivered again to %s%d (injection %d)", i, v.sid == ROOT ? "R" : "S", v.sid == ROOT ? 0 : v.sid, v.inj); break; } w |= 1u << v.inj; } }
 		for (int i = 0; i < P.nquery && i < n; ++i) {
 			const Ev& v = e.tr[P.query_ev[i]];
 			const uint8_t want = (VX_HEAD && i == 0) ? ROOT : A;
@@ -469,6 +472,9 @@ inline void m07(const Edge& e, const Parsed& P) {
 	if (!(P.processing || P.activation) || P.structErr) {
 		if (e.op.k == OP_CHANGEW && !(e.post.req.set && e.post.req.tag == e.op.b)) flag(C07, "request-payload", e, "outstanding request lost its payload");
 		if (e.op.k == OP_CHANGE && e.post.req.set) flag(C07, "request-payload", e, "payload-free request exposes a payload");
+#if VX_HIST
+		if ((e.op.k == OP_REPLAY_T || e.op.k == OP_REPLAY_E) && e.post.prev.set) flag(C07, "previous-payload", e, "after a replay (a transition without payload) previousTransition() exposes payload p%d", e.post.prev.tag);
+#endif
 		// no request is being processed in this call (load, exit, replay, ...): whatever callbacks it runs see no payload as "current"
 		if (!P.structErr) for (int i = 0; i < e.nev; ++i) { const Ev& v = e.tr[i]; if (v.kind == EV_MARK) break; if (v.kind == EV_CB && (v.flags & OF_CUR) && v.cur.set) { flag(C07, "current-payload", e, "ev %d: %s of %d sees payload p%d as the current transition's although this call processes no request", i, METH_NAME[v.meth], v.sid, v.cur.tag); break; } }
 		return;
@@ -518,6 +524,8 @@ inline void m11(const Edge& e, const Parsed& P) {
 		}
 		return;
 	}
+	// a cycle that applied nothing leaves an empty history: a replica fed from it must stay where it is
+	if ((e.op.k == OP_UPDATE || e.op.k == OP_REACT) && !tx_empty(e.post.prev) && e.post.active == e.pre.active && P.nlife == 0) flag(C11, "history-not-empty", e, "%s applied no transition, previousTransition() = %d>%d", OP_NAME[e.op.k], e.post.prev.o == NONE8 ? -1 : e.post.prev.o, e.post.prev.d);
 	switch (e.op.k) {
 	case OP_REPLAY_T: if (!e.res.ret) flag(C11, "replay-returned-false", e, "replayTransition(%d)", e.op.a); if (e.post.active != e.op.a) flag(C11, "replay-activity", e, "active=%d", e.post.active); if (!(e.post.prev.d == e.op.a)) flag(C11, "replay-history", e, "previousTransition().destination=%d", e.post.prev.d);
 		if (e.post.prev.d == e.op.a && (e.post.prev.o != NONE8 || e.post.prev.set)) flag(C11, "replay-history", e, "after replayTransition(%d) previousTransition() = %d>%d/p%d: origin or payload of some earlier transition resurfaced", e.op.a, e.post.prev.o == NONE8 ? -1 : e.post.prev.o, e.post.prev.d, e.post.prev.tag);
